@@ -10,7 +10,8 @@ Proof machinery: `StubGen.Proofs.Files`.
 Two of the requested statements are false of the model as literally stated; the counterexamples are
 given below and the theorems carry the suffix `_partial`:
 `CoherentOutside outside` says that two class paths of other libraries that are sent to the same
-directory are also sent to the same file.  It holds whenever no class path contains a `/`
+directory have the same module name, hence are also sent to the same file (the file name is the module name
+without its leading underscores, `outsideFile`).  It holds whenever no class path contains a `/`
 (`coherent_of_no_slash`).
 -/
 import StubGen.Proofs.Files
@@ -198,6 +199,16 @@ example : ((createStubFiles true [] ["np.internal.Array", "np.internal.Matrix"] 
        lookupFile (applyWrites [("np/internal/internal.sdsstub", "stale")] ops) "np/internal/internal.sdsstub"))
     = some ([("np/internal/internal.sdsstub", .write), ("np/internal/internal.sdsstub", .append)],
             some "package np.`internal`\n\nclass Array\n\nclass Matrix\n") := by decide +kernel
+
+/-- the same for a private module of another library (`lib._impl`): the placeholder file is
+    `lib/_impl/impl.sdsstub` (no leading underscore in the file name); both classes go to it, write then append,
+    and a second run replaces the content instead of appending to it -/
+example : CoherentOutside ["lib._impl.Thing", "lib._impl.Other"] := coherent_of_no_slash _ (by decide)
+example : ((createStubFiles false [] ["lib._impl.Thing", "lib._impl.Other"] []).toOption.map fun ops =>
+      (ops.map (fun o => (o.path, o.mode)), applyWrites [] ops, applyWrites (applyWrites [] ops) ops))
+    = some ([("lib/_impl/impl.sdsstub", .write), ("lib/_impl/impl.sdsstub", .append)],
+            [("lib/_impl/impl.sdsstub", "package lib._impl\n\nclass Other\n\nclass Thing\n")],
+            [("lib/_impl/impl.sdsstub", "package lib._impl\n\nclass Other\n\nclass Thing\n")]) := by decide +kernel
 
 end Examples
 
